@@ -264,6 +264,8 @@ def rand_top(rng, engine, avail=()):
             fl = rng.choice(["a", None, 5, {"a": 1}, ["a", ""], ["a", 5], [None]])
         else:
             fl = [rng.choice(avail) if rng.random() < 0.95 else "zz" for _ in range(rng.randrange(0, 4) or 1)]
+        if isinstance(fl, list) and len(fl) >= 2 and rng.random() < 0.25:
+            fl = fl + [fl[0]]            # a file listed again after others
         if rng.random() < 0.015:
             e = rng.choice(["(", "a and", "@bogus@x", 5])
         lines.append(flow(e) + ": " + flow(fl))
